@@ -1,0 +1,5 @@
+//go:build !verif
+
+package cli
+
+func simYield(any, string, int64) {}
